@@ -9,6 +9,12 @@ import NodisVerif.Proofs.C04ScoreSpec
 import NodisVerif.Proofs.C04Rank
 import NodisVerif.Proofs.C08Step
 import NodisVerif.Model.Handler3
+import NodisVerif.Proofs.SkiplistFuel
+import NodisVerif.Proofs.SkiplistSpansRun
+import NodisVerif.Proofs.SkiplistZSet
+import NodisVerif.Proofs.SkiplistHeader
+import NodisVerif.Proofs.SkiplistZHeader
+import NodisVerif.Proofs.SkiplistZRange
 /-
   C04 — sorted sets stay ordered by (score, member); rank, range and score agree.
 
@@ -475,5 +481,371 @@ end handlers
      tied to the code by the RESP streams and pinned by witnesses only; there is no general theorem relating
      the handlers' parsing to the reference semantics.
 -/
+
+/-! ## 12. The real skiplist: pointers, levels, spans (work package A)
+
+  `Model/Skiplist.lean` is ds/zset/skiplist.go itself — a heap of nodes addressed by index, `forward` / `backward`
+  pointers, per-level spans, the `update[]` / `rank[]` arrays, the same span arithmetic; the random level of `insert`
+  is a parameter — and it is executed against the real code on every run (`sl …` / `slz …` streams of the check:
+  the whole structure is compared after every operation). The theorems of this section say that it refines the
+  sorted list of sections 1–11:
+
+  * `Skiplist.Inv sl` (Proofs/SkiplistInv.lean, `IsChain`): there is a chain `c` of distinct heap indexes — the nodes
+    reached from the header by level-0 forwards, ending in nil — with items strictly increasing by (score, member), no
+    NaN; every level-`i` link of the header and of every chain node points to the next chain node whose height exceeds
+    `i` (nil if none) and, when it is not nil, its span is the distance in chain positions; `backward` = the previous
+    node (nil for the first); `tail` = the last node; `length` = number of nodes; heights in `1..level`,
+    `1 ≤ level ≤ 16`, `level` = the maximal height (or 1).
+  * `Skiplist.abs sl` = the items along the level-0 chain (computed by the executable `chain`).
+  * `Skiplist.InvSpans sl` adds the discipline of links that END in nil: below `level` such a link spans
+    `length − position`. Header levels at or above `level` keep whatever `removeNode` left there (stale spans; `insert`
+    overwrites them when the level grows): they are not constrained, the tie compares them verbatim.
+
+  Everything is for ALL heaps satisfying the invariant, all arguments, every level 1..16. -/
+section skiplist
+open NodisVerif.Skiplist (SL makeSkiplist maxLevel chain)
+
+/-- the example state used below: five operations from `makeSkiplist()`, heights 2, 1, 3, 1 (one removal) -/
+def slDemoOps : List Skiplist.SlOp :=
+  [.insert [97] 0x3FF0000000000000 2, .insert [98] 0x4000000000000000 1, .insert [99] 0x3FF0000000000000 3,
+   .insert [100] 0x8000000000000000 1, .remove [98] 0x4000000000000000]
+
+def slDemo : SL := (Skiplist.runM makeSkiplist slDemoOps).toOption.getD makeSkiplist
+
+theorem skiplist_demo : Skiplist.runM makeSkiplist slDemoOps = .ok slDemo ∧ Skiplist.Inv slDemo ∧ slDemo.level = 3 ∧
+    Skiplist.abs slDemo = [(0x8000000000000000, [100]), (0x3FF0000000000000, [97]), (0x3FF0000000000000, [99])] := by
+  have hok : Skiplist.OpsOk [] slDemoOps := by
+    simp only [slDemoOps, Skiplist.OpsOk, Skiplist.OpOk, Skiplist.stepL]
+    decide
+  obtain ⟨sl, hr, hi, _⟩ := Skiplist.run_inv_from_empty slDemoOps hok
+  have hr' : Skiplist.runM makeSkiplist slDemoOps = .ok slDemo := rfl
+  have : sl = slDemo := by rw [hr] at hr'; exact Except.ok.inj hr'
+  subst this
+  exact ⟨hr, hi, by decide, by decide⟩
+
+/-- `makeSkiplist()` satisfies the invariant; its chain is empty -/
+theorem skiplist_empty_inv : Skiplist.Inv makeSkiplist ∧ Skiplist.abs makeSkiplist = [] :=
+  ⟨Skiplist.makeSkiplist_inv, Skiplist.abs_makeSkiplist⟩
+
+/-- under the invariant the chain is strictly ordered by (score, member), NaN-free, and `length` counts it -/
+theorem skiplist_inv_sorted (sl : SL) (h : Skiplist.Inv sl) :
+    (Skiplist.abs sl).Pairwise ILt ∧ (∀ a ∈ Skiplist.abs sl, Proofs.ZSetLemmas.Good a) ∧
+    sl.length = ((Skiplist.abs sl).length : Int) :=
+  ⟨(Skiplist.inv_sorted h).1, (Skiplist.inv_sorted h).2, Skiplist.inv_length h⟩
+
+/-- `insert_refines`: inserting a new member with a non-NaN score at ANY level 1..16 keeps the invariant (all
+    forwards, spans, backward, tail, length, level) and is `slInsert` on the chain; no panic, no fuel exhaustion -/
+theorem skiplist_insert_refines (sl : SL) (h : Skiplist.Inv sl) (m : Bytes) (s : F64) (lvl : Nat)
+    (hl1 : 1 ≤ lvl) (hl2 : lvl ≤ 16) (hs : F64.isNaN s = false) (hm : ∀ x ∈ Skiplist.abs sl, x.2 ≠ m) :
+    ∃ sl', Skiplist.insert sl m s lvl = .ok sl' ∧ Skiplist.Inv sl' ∧
+      Skiplist.abs sl' = slInsert (Skiplist.abs sl) m s :=
+  Skiplist.insert_refines h m s lvl hl1 hl2 hs hm
+
+example : Skiplist.Inv slDemo ∧ (1 ≤ 4 ∧ 4 ≤ 16) ∧ F64.isNaN 0x3FF0000000000000 = false ∧
+    ∀ x ∈ Skiplist.abs slDemo, x.2 ≠ [98] := by
+  refine ⟨skiplist_demo.2.1, by decide, by decide, ?_⟩
+  rw [skiplist_demo.2.2.2]; decide
+
+/-- `remove_refines`: for every member and score (present or not, NaN or not) `remove` keeps the invariant, is
+    `slRemove` on the chain, and returns true exactly when a node with that member and an IEEE-equal score exists -/
+theorem skiplist_remove_refines (sl : SL) (h : Skiplist.Inv sl) (m : Bytes) (s : F64) :
+    ∃ sl' b, Skiplist.remove sl m s = .ok (sl', b) ∧ Skiplist.Inv sl' ∧
+      Skiplist.abs sl' = slRemove (Skiplist.abs sl) m s ∧
+      (b = true ↔ ∃ x ∈ Skiplist.abs sl, F64.eq s x.1 = true ∧ x.2 = m) :=
+  Skiplist.remove_refines h m s
+
+/-- `getRank_spec`: when the score passed is the one stored for the member (this is how `SortedSet.getRank` calls it:
+    with the dictionary's score) the result is the list-level `slGetRank` -/
+theorem skiplist_getRank_spec (sl : SL) (h : Skiplist.Inv sl) (m : Bytes) (s : F64)
+    (hscore : ∀ x ∈ Skiplist.abs sl, x.2 = m → F64.eq x.1 s = true) :
+    Skiplist.getRank sl m s = .ok (slGetRank (Skiplist.abs sl) m s) :=
+  Skiplist.getRank_spec_of_score h m s hscore
+
+/-- … in particular index + 1 for a pair on the chain, when members are unique -/
+theorem skiplist_getRank_index (sl : SL) (h : Skiplist.Inv sl) (m : Bytes) (s : F64) (j : Nat)
+    (huniq : ((Skiplist.abs sl).map (·.2)).Nodup) (hj : (Skiplist.abs sl)[j]? = some (s, m)) :
+    Skiplist.getRank sl m s = .ok ((j : Int) + 1) :=
+  Skiplist.getRank_of_index_uniq h m s j huniq hj
+
+example : Skiplist.Inv slDemo ∧ ((Skiplist.abs slDemo).map (·.2)).Nodup ∧
+    (Skiplist.abs slDemo)[2]? = some (0x3FF0000000000000, [99]) ∧
+    Skiplist.getRank slDemo [99] 0x3FF0000000000000 = .ok 3 := by
+  refine ⟨skiplist_demo.2.1, ?_, ?_, rfl⟩ <;> rw [skiplist_demo.2.2.2] <;> decide
+
+/-- what the code computes otherwise, exactly: it tests `x != header && x.Member == member` on the node where each
+    level's walk stops (the walk uses `<=` on members, so it passes the node itself), from the top level down, and
+    returns the position of the first such node; 0 if no level qualifies. The result is always within `0..length`. -/
+theorem skiplist_getRank_total (sl : SL) (h : Skiplist.Inv sl) (m : Bytes) (s : F64) :
+    ∃ r, Skiplist.getRank sl m s = .ok r ∧ 0 ≤ r ∧ r ≤ sl.length :=
+  Skiplist.getRank_ok h m s
+
+/-- … and exactly (`Skiplist.getRank_char`): with `k` = the number of chain nodes whose (score, member) is ≤ the pair
+    asked for (`chain sl` = the chain, `Stop … i A u B` = "`u`, at position `|A|`, is the last node among positions `0..k`
+    that takes part in level `i`", `NoHit … i` = "the stopping node of level `i` is the header or has another member"):
+    the result is the position of the stopping node of the HIGHEST level whose stopping node is not the header and has
+    member `m`; 0 if no level qualifies -/
+theorem skiplist_getRank_char (sl : SL) (h : Skiplist.Inv sl) (m : Bytes) (s : F64) :
+    ∃ r, Skiplist.getRank sl m s = .ok r ∧
+      ((r = 0 ∧ ∀ i, i < sl.level →
+          Skiplist.NoHit sl (chain sl) ((Skiplist.abs sl).takeWhile (Skiplist.rankP m s)).length m i) ∨
+       (∃ i, i < sl.level ∧ ∃ A u B,
+          Skiplist.Stop sl (chain sl) ((Skiplist.abs sl).takeWhile (Skiplist.rankP m s)).length i A u B ∧
+          u ≠ 0 ∧ (Skiplist.itemAt sl.heap u).2 = m ∧ r = (A.length : Int) ∧ 1 ≤ A.length ∧
+          A.length ≤ ((Skiplist.abs sl).takeWhile (Skiplist.rankP m s)).length ∧
+          ∀ i', i < i' → i' < sl.level →
+            Skiplist.NoHit sl (chain sl) ((Skiplist.abs sl).takeWhile (Skiplist.rankP m s)).length m i')) := by
+  obtain ⟨c, hc⟩ := h
+  rw [Skiplist.chain_eq hc, Skiplist.abs_eq hc]
+  exact Skiplist.getRank_char hc m s
+
+/-- both hypotheses of `skiplist_getRank_spec` / `_index` are needed — two structures built by the model's own `insert`
+    (they satisfy the invariant: `Skiplist.invA`, `Skiplist.invB`): a member asked for with a score that is not its
+    stored score is "found" at a high level; with a duplicated member the taller duplicate's position is returned -/
+theorem skiplist_getRank_needs_hypotheses :
+    (Skiplist.Inv Skiplist.slA ∧ ((Skiplist.abs Skiplist.slA).map (·.2)).Nodup ∧
+      Skiplist.getRank Skiplist.slA [109] Skiplist.f5 = .ok 1 ∧ slGetRank (Skiplist.abs Skiplist.slA) [109] Skiplist.f5 = 0) ∧
+    (Skiplist.Inv Skiplist.slB ∧ (Skiplist.abs Skiplist.slB)[1]? = some (Skiplist.f2, [109]) ∧
+      Skiplist.getRank Skiplist.slB [109] Skiplist.f2 = .ok 1 ∧ slGetRank (Skiplist.abs Skiplist.slB) [109] Skiplist.f2 = 2) :=
+  ⟨⟨Skiplist.invA, Skiplist.getRank_needs_score⟩, ⟨Skiplist.invB, Skiplist.getRank_needs_uniq⟩⟩
+
+/-- `getByRank_spec`: rank 0 is the HEADER (index 0 — the phantom element of finding A-41b), `1 ≤ r ≤ length` is node
+    `r` of the chain, anything else nil -/
+theorem skiplist_getByRank_spec (sl : SL) (h : Skiplist.Inv sl) (r : Int) :
+    Skiplist.getByRank sl r = .ok (if r < 0 then none else if r = 0 then some 0 else (chain sl)[r.toNat - 1]?) := by
+  obtain ⟨c, hc⟩ := h
+  rw [Skiplist.chain_eq hc]
+  exact Skiplist.getByRank_spec hc r
+
+example : Skiplist.getByRank slDemo 0 = .ok (some 0) ∧ Skiplist.getByRank slDemo 3 = .ok (some 3) ∧
+    Skiplist.getByRank slDemo 4 = .ok none ∧ chain slDemo = [4, 1, 3] := ⟨rfl, rfl, rfl, by decide⟩
+
+/-- `removeRangeByRank_refines` (1-based inclusive ranks, any integers) -/
+theorem skiplist_removeRangeByRank_refines (sl : SL) (h : Skiplist.Inv sl) (start stop : Int) :
+    ∃ sl' removed, Skiplist.removeRangeByRank sl start stop = .ok (sl', removed) ∧ Skiplist.Inv sl' ∧
+      (Skiplist.abs sl', removed) = slRemoveRangeByRank (Skiplist.abs sl) start stop :=
+  Skiplist.removeRangeByRank_refines h start stop
+
+/-- `removeRange_refines`: every bound (also NaN), both mode bits, every limit. `limit ≤ 0` (the sorted set always
+    passes 0) is exactly the list-level `slRemoveRange`; a positive limit removes the first `limit` nodes of that range -/
+theorem skiplist_removeRange_refines (sl : SL) (h : Skiplist.Inv sl) (min max : F64) (limit : Int) (mode : Nat) :
+    ∃ sl' removed, Skiplist.removeRange sl min max limit mode = .ok (sl', removed) ∧ Skiplist.Inv sl' ∧
+      (if limit ≤ 0 then (Skiplist.abs sl', removed) = slRemoveRange (Skiplist.abs sl) min max mode
+       else
+        let pre := (Skiplist.abs sl).takeWhile fun n => !(if mode % 2 = 1 then F64.lt min n.1 else F64.le min n.1)
+        let rest := (Skiplist.abs sl).drop pre.length
+        let rem := rest.takeWhile fun n => !(if mode / 2 % 2 = 1 then F64.le max n.1 else F64.lt max n.1)
+        removed = rem.take limit.toNat ∧ Skiplist.abs sl' = pre ++ rem.drop limit.toNat ++ rest.drop rem.length) :=
+  Skiplist.removeRange_refines h min max limit mode
+
+example : (Skiplist.removeRange slDemo 0x8000000000000000 0x3FF0000000000000 1 0).map (·.2) = .ok [(0x8000000000000000, [100])] ∧
+    (Skiplist.removeRangeByRank slDemo 2 5).map (·.2) = .ok [(0x3FF0000000000000, [97]), (0x3FF0000000000000, [99])] :=
+  ⟨rfl, rfl⟩
+
+/-- `hasInRange` is the list-level function -/
+theorem skiplist_hasInRange_spec (sl : SL) (h : Skiplist.Inv sl) (min max : F64) :
+    Skiplist.hasInRange sl min max = .ok (hasInRange (Skiplist.abs sl) min max) :=
+  Skiplist.hasInRange_spec h min max
+
+/-- `getFirstInRange_spec`: never panics (the `n.Item.Score` on nil cannot happen under the invariant); the node
+    returned is the chain node after the prefix of scores below `min`, and its item is the list-level answer -/
+theorem skiplist_getFirstInRange_spec (sl : SL) (h : Skiplist.Inv sl) (min max : F64) :
+    ∃ r, Skiplist.getFirstInRange sl min max = .ok r ∧
+      (r.map (Skiplist.itemAt sl.heap)) = (getFirstInRange (Skiplist.abs sl) min max).map (·.cur) ∧
+      (∀ n, r = some n → ∃ j, (chain sl)[j]? = some n ∧
+        j = ((Skiplist.abs sl).takeWhile (fun x => F64.gt min x.1)).length) :=
+  Skiplist.getFirstInRange_inv h min max
+
+/-- `getLastInRange_spec`, for a `max` that is not NaN: the header is never returned -/
+theorem skiplist_getLastInRange_spec (sl : SL) (h : Skiplist.Inv sl) (min max : F64) (hmax : F64.isNaN max = false) :
+    ∃ r, Skiplist.getLastInRange sl min max = .ok r ∧
+      (r.map (Skiplist.itemAt sl.heap)) = (getLastInRange (Skiplist.abs sl) min max).map (·.cur) ∧
+      r ≠ some 0 ∧
+      (∀ n, r = some n → ∃ j, (chain sl)[j]? = some n ∧
+        j + 1 = ((Skiplist.abs sl).takeWhile (fun x => F64.ge max x.1)).length) :=
+  Skiplist.getLastInRange_inv h min max hmax
+
+example : Skiplist.getFirstInRange slDemo 0 0x4000000000000000 = .ok (some 4) ∧
+    Skiplist.getLastInRange slDemo 0 0x4000000000000000 = .ok (some 3) ∧
+    Skiplist.hasInRange slDemo 0x4000000000000000 0x4000000000000000 = .ok false := ⟨rfl, rfl, rfl⟩
+
+/-- the corner the hypothesis excludes (recorded in FINDINGS.md of the work package): with a NaN `max` and a range
+    that `hasInRange` accepts, `getLastInRange` stays on the header and returns the HEADER unless `min > 0`; the
+    list-level model says nil. Not reachable through a command: `scoreLoop` rejects every node when `max` is NaN. -/
+theorem skiplist_getLastInRange_nan_finding :
+    (do let sl ← Skiplist.insert makeSkiplist [97] 0x3FF0000000000000 1
+        let r ← Skiplist.getLastInRange sl 0 0x7FF8000000000000
+        pure (r, (getLastInRange (Skiplist.abs sl) 0 0x7FF8000000000000).isNone)) = .ok (some 0, true) := by
+  rfl
+
+/-- `fuel_sufficient`: under the invariant no operation runs out of fuel and none panics -/
+theorem skiplist_fuel_sufficient (sl : SL) (h : Skiplist.Inv sl) :
+    (∀ m s lvl, 1 ≤ lvl → lvl ≤ 16 → F64.isNaN s = false → (∀ x ∈ Skiplist.abs sl, x.2 ≠ m) →
+        ∃ r, Skiplist.insert sl m s lvl = .ok r) ∧
+    (∀ m s, ∃ r, Skiplist.remove sl m s = .ok r) ∧
+    (∀ m s, ∃ r, Skiplist.getRank sl m s = .ok r) ∧
+    (∀ r, ∃ o, Skiplist.getByRank sl r = .ok o) ∧
+    (∀ a b, ∃ r, Skiplist.hasInRange sl a b = .ok r) ∧
+    (∀ a b, ∃ r, Skiplist.getFirstInRange sl a b = .ok r) ∧
+    (∀ a b, ∃ r, Skiplist.getLastInRange sl a b = .ok r) ∧
+    (∀ a b limit mode, ∃ r, Skiplist.removeRange sl a b limit mode = .ok r) ∧
+    (∀ a b, ∃ r, Skiplist.removeRangeByRank sl a b = .ok r) :=
+  Skiplist.fuel_sufficient h
+
+/-- `run_inv`: from any state satisfying the invariant — in particular from `makeSkiplist()` — any finite sequence of
+    insert (any level 1..16, new member, non-NaN score) / remove / removeRange / removeRangeByRank runs without panic
+    or fuel exhaustion, every reachable state satisfies the invariant, and the chain of the result is the run of the
+    list-level model. So every theorem of sections 1–11 about `z.sl` speaks about the chain of the pointer structure. -/
+theorem skiplist_run_inv (ops : List Skiplist.SlOp) (sl : SL) (h : Skiplist.Inv sl)
+    (hok : Skiplist.OpsOk (Skiplist.abs sl) ops) :
+    ∃ sl', Skiplist.runM sl ops = .ok sl' ∧ Skiplist.Inv sl' ∧
+      Skiplist.abs sl' = Skiplist.runL (Skiplist.abs sl) ops :=
+  Skiplist.run_refines ops h hok
+
+theorem skiplist_run_inv_from_empty (ops : List Skiplist.SlOp) (hok : Skiplist.OpsOk [] ops) :
+    ∃ sl, Skiplist.runM makeSkiplist ops = .ok sl ∧ Skiplist.Inv sl ∧ Skiplist.abs sl = Skiplist.runL [] ops :=
+  Skiplist.run_inv_from_empty ops hok
+
+/-! ### the span discipline of nil links (`InvSpans`) -/
+
+/-- `makeSkiplist()` satisfies the full invariant -/
+theorem skiplist_empty_invSpans : Skiplist.InvSpans makeSkiplist := Skiplist.makeSkiplist_invSpans
+
+/-- `insert` keeps the full invariant: also a link that ends in nil spans `length − position` afterwards — this is where
+    `update[i].level[i].span = skiplist.length` for a new level and the `span++` of the untouched levels are needed -/
+theorem skiplist_insert_invSpans (sl : SL) (h : Skiplist.InvSpans sl) (m : Bytes) (s : F64) (lvl : Nat)
+    (hl1 : 1 ≤ lvl) (hl2 : lvl ≤ 16) (hs : F64.isNaN s = false) (hm : ∀ x ∈ Skiplist.abs sl, x.2 ≠ m) :
+    ∃ sl', Skiplist.insert sl m s lvl = .ok sl' ∧ Skiplist.InvSpans sl' ∧
+      Skiplist.abs sl' = slInsert (Skiplist.abs sl) m s :=
+  Skiplist.insert_invSpans h m s lvl hl1 hl2 hs hm
+
+/-- `remove` keeps the full invariant — the `else { span-- }` branch of `removeNode` on every level in use, not only on
+    the removed node's own levels -/
+theorem skiplist_remove_invSpans (sl : SL) (h : Skiplist.InvSpans sl) (m : Bytes) (s : F64) :
+    ∃ sl' b, Skiplist.remove sl m s = .ok (sl', b) ∧ Skiplist.InvSpans sl' ∧
+      Skiplist.abs sl' = slRemove (Skiplist.abs sl) m s :=
+  Skiplist.remove_invSpans h m s
+
+theorem skiplist_removeRangeByRank_invSpans (sl : SL) (h : Skiplist.InvSpans sl) (start stop : Int) :
+    ∃ sl' removed, Skiplist.removeRangeByRank sl start stop = .ok (sl', removed) ∧ Skiplist.InvSpans sl' ∧
+      (Skiplist.abs sl', removed) = slRemoveRangeByRank (Skiplist.abs sl) start stop :=
+  Skiplist.removeRangeByRank_invSpans h start stop
+
+theorem skiplist_removeRange_invSpans (sl : SL) (h : Skiplist.InvSpans sl) (min max : F64) (mode : Nat) :
+    ∃ sl' removed, Skiplist.removeRange sl min max 0 mode = .ok (sl', removed) ∧ Skiplist.InvSpans sl' ∧
+      (Skiplist.abs sl', removed) = slRemoveRange (Skiplist.abs sl) min max mode := by
+  obtain ⟨sl', rem, he, hi, ha⟩ := Skiplist.removeRange_invSpans h min max 0 mode
+  rw [if_pos (Int.le_refl 0)] at ha
+  exact ⟨sl', rem, he, hi, ha⟩
+
+/-- runs keep the full invariant (every reachable state) -/
+theorem skiplist_run_invSpans (ops : List Skiplist.SlOp) (sl : SL) (h : Skiplist.InvSpans sl)
+    (hok : Skiplist.OpsOk (Skiplist.abs sl) ops) :
+    ∃ sl', Skiplist.runM sl ops = .ok sl' ∧ Skiplist.InvSpans sl' ∧
+      Skiplist.abs sl' = Skiplist.runL (Skiplist.abs sl) ops :=
+  Skiplist.run_invSpans ops h hok
+
+example : Skiplist.InvSpans slDemo := by
+  have hok : Skiplist.OpsOk [] slDemoOps := by
+    simp only [slDemoOps, Skiplist.OpsOk, Skiplist.OpOk, Skiplist.stepL]
+    decide
+  obtain ⟨sl, hr, hi, _⟩ := Skiplist.run_invSpans_from_empty slDemoOps hok
+  rw [skiplist_demo.1] at hr
+  exact (Except.ok.inj hr) ▸ hi
+
+/-! ### the header node -/
+
+/-- the header keeps score 0, member "" and backward nil in every reachable state (`IsChain` does not speak about the
+    header's own fields; `getByRank 0`, the phantom member of finding A-41b, and the backward walk of ZREVRANGE read them) -/
+theorem skiplist_header_ok (ops : List Skiplist.SlOp) (sl sl' : SL) (h : Skiplist.Inv sl) (hh : Skiplist.HeaderOk sl)
+    (hok : Skiplist.OpsOk (Skiplist.abs sl) ops) (hr : Skiplist.runM sl ops = .ok sl') : Skiplist.HeaderOk sl' :=
+  Skiplist.run_headerOk ops h hh hok hr
+
+example : Skiplist.HeaderOk slDemo :=
+  Skiplist.run_headerOk_from_empty slDemoOps
+    (by simp only [slDemoOps, Skiplist.OpsOk, Skiplist.OpOk, Skiplist.stepL]; decide) skiplist_demo.1
+
+/-- the item of the node `getByRank` returns is the list-level cursor's, for EVERY rank (0 = the header item (0, "")) -/
+theorem skiplist_getByRank_item (sl : SL) (h : Skiplist.Inv sl) (hh : Skiplist.HeaderOk sl) (r : Int) :
+    ∃ o, Skiplist.getByRank sl r = .ok o ∧
+      o.map (Skiplist.itemAt sl.heap) = (getByRank (Skiplist.abs sl) r).map (·.cur) := by
+  obtain ⟨c, hc⟩ := h
+  exact Skiplist.getByRank_item_all hc hh r
+
+/-! ### the sorted set on top of the pointer structure
+
+  `Model/SkiplistZSet.lean` is sorted_set.go's `zAdd` / `ZRem` / `ZRemRangeByScore` / `ZRemRangeByRank` / `getRank` with
+  the dictionary and the POINTER skiplist (executed against the real `SortedSet` by the `slz` streams). The
+  preconditions of `insert` (member not on the chain) and of `getRank` (the score passed is the stored one) are
+  discharged from the dictionary, so the only hypotheses left are the callers': level in 1..16, no NaN score. -/
+
+/-- `zAdd` on the pointer structure = `DsZSet.zAdd` on (dictionary, chain), and the invariants are kept -/
+theorem skiplist_zAdd_refines (p : Skiplist.PZSet) (h : Skiplist.PZInv p) (m : Bytes) (s : F64) (lvl : Nat)
+    (hl1 : 1 ≤ lvl) (hl2 : lvl ≤ 16) (hs : F64.isNaN s = false) :
+    ∃ p' r, Skiplist.pzAdd p m s lvl = .ok (p', r) ∧ Skiplist.PZInv p' ∧ (p'.toZSet, r) = zAdd p.toZSet m s :=
+  Skiplist.pzAdd_inv h m s lvl hl1 hl2 hs
+
+theorem skiplist_zRem_refines (p : Skiplist.PZSet) (h : Skiplist.PZInv p) (ms : List Bytes) :
+    ∃ p' r, Skiplist.pzRem p ms = .ok (p', r) ∧ Skiplist.PZInv p' ∧ (p'.toZSet, r) = zRem p.toZSet ms :=
+  Skiplist.pzRem_refines h ms
+
+theorem skiplist_zRemRangeByScore_refines (p : Skiplist.PZSet) (h : Skiplist.PZInv p) (min max : F64) (mode : Nat) :
+    ∃ p' r, Skiplist.pzRemRangeByScore p min max mode = .ok (p', r) ∧ Skiplist.PZInv p' ∧
+      (p'.toZSet, r) = zRemRangeByScore p.toZSet min max mode :=
+  Skiplist.pzRemRangeByScore_refines h min max mode
+
+theorem skiplist_zRemRangeByRank_refines (p : Skiplist.PZSet) (h : Skiplist.PZInv p) (start stop : Int) :
+    ∃ p' r, Skiplist.pzRemRangeByRank p start stop = .ok (p', r) ∧ Skiplist.PZInv p' ∧
+      (p'.toZSet, r) = zRemRangeByRank p.toZSet start stop :=
+  Skiplist.pzRemRangeByRank_refines h start stop
+
+/-- `ZRank` / `ZRevRank` through the spans of the pointer structure = the list-level rank -/
+theorem skiplist_zRank_refines (p : Skiplist.PZSet) (h : Skiplist.PZInv p) (m : Bytes) :
+    Skiplist.pzRank p m = .ok (zRank p.toZSet m) ∧ Skiplist.pzRevRank p m = .ok (zRevRank p.toZSet m) :=
+  ⟨Skiplist.pzRank_refines h m, Skiplist.pzRevRank_refines h m⟩
+
+/-- ZRANGE / ZREVRANGE on the pointer structure (start node by `getByRank` through the spans, or tail / first node; then
+    `forward` / `backward` pointer steps) = the list-level `forEachByRank`, INCLUDING the nil dereferences: the pointer
+    code panics exactly where the list-level model says `none` (finding A-41), and it returns the header's item exactly
+    where the list-level model returns the phantom member (finding A-41b) -/
+theorem skiplist_zRange_refines (p : Skiplist.PZSet) (h : Skiplist.PZInv p) (hh : Skiplist.HeaderOk p.sl)
+    (start stop : Int) (desc : Bool) :
+    Skiplist.pzForEachByRank p start stop desc =
+      (match forEachByRank p.toZSet start stop desc with | some l => .ok l | none => .error .panic) :=
+  Skiplist.pzForEachByRank_refines h hh start stop desc
+
+theorem skiplist_zCount_refines (p : Skiplist.PZSet) (h : Skiplist.PZInv p) (hh : Skiplist.HeaderOk p.sl)
+    (min max : F64) (mode : Nat) :
+    Skiplist.pzCount p min max mode =
+      (match zCount p.toZSet min max mode with | some n => .ok n | none => .error .panic) :=
+  Skiplist.pzCount_refines h hh min max mode
+
+/-- ZRANGEBYSCORE / ZREVRANGEBYSCORE on the pointer structure (`getFirstInRange` / `getLastInRange`, then pointer steps)
+    = the list-level `rangeByScore`: never a panic, never out of fuel; every bound (also NaN: with a NaN `max` the
+    descending walk starts on the header, F-A1, and stops at once), both mode bits, offset, limit -/
+theorem skiplist_zRangeByScore_refines (p : Skiplist.PZSet) (h : Skiplist.PZInv p) (hh : Skiplist.HeaderOk p.sl)
+    (min max : F64) (offset limit : Int) (desc : Bool) (mode : Nat) :
+    Skiplist.pzRangeByScore p min max offset limit desc mode =
+      .ok (rangeByScore p.toZSet min max offset limit desc mode) :=
+  Skiplist.pzRangeByScore_refines h hh min max offset limit desc mode
+
+/-- any finite sequence of the mutating operations from the empty sorted set: no panic, no fuel exhaustion, the pointer
+    structure satisfies `Skiplist.Inv` and `HeaderOk`, (dictionary, chain) satisfies the list-level invariant of section 1
+    and is exactly the state the list-level model reaches, with the same replies; also for every prefix of the sequence.
+    With the three theorems above (which need exactly `PZInv` and `HeaderOk`) every ordered query in every reachable
+    state answers as the list-level model does: through this theorem sections 1–11 (stated on `ZSet`) hold of the
+    pointer structure. -/
+theorem skiplist_zset_run (ops : List Skiplist.PZOp) (hok : ∀ op ∈ ops, Skiplist.PZOpOk op) (k : Nat) :
+    ∃ p rs, Skiplist.pzRun Skiplist.PZSet.empty (ops.take k) = .ok (p, rs) ∧ Skiplist.PZInv p ∧
+      Skiplist.HeaderOk p.sl ∧ p.toZSet.WF ∧ (p.toZSet, rs) = Skiplist.zRun DsZSet.empty (ops.take k) := by
+  obtain ⟨p, rs, he, hi, hz, hh, ha⟩ := Skiplist.pz_run_full_prefix ops hok k
+  exact ⟨p, rs, he, ⟨hi, hz⟩, hh, hz.toWF, ha⟩
+
+example : (∀ op ∈ [Skiplist.PZOp.add [97] 0x3FF0000000000000 2, .add [98] 0x4000000000000000 16, .add [97] 0x4008000000000000 1,
+      .rank [97] false, .remRangeByRank 0 0], Skiplist.PZOpOk op) := by
+  intro op hop
+  simp only [List.mem_cons, List.not_mem_nil, or_false] at hop
+  rcases hop with rfl | rfl | rfl | rfl | rfl <;> simp [Skiplist.PZOpOk, Skiplist.maxLevel] <;> decide
+
+end skiplist
 
 end NodisVerif.C04
